@@ -114,6 +114,21 @@ def knownExceptionLeaks : List KnownLeak := [
   ⟨.cuddZdd, "_compose", "_compose#2", [("_compose", 1)], .internal⟩,
   ⟨.cuddZdd, "_compose", "setitem#0", [("cuddZddIte", 2)], .memoryOnly⟩]
 
+/-- functions with a path on which a node is released with CUDD's NON-recursive dereference and then
+dropped (back end, function, how the path ends: `""` = any end, else the name of the exception / the
+site of the callee that raises).
+`_compose_root` (cudd_zdd.pyx, reviewed 2026-09-28): inside `while mgr.reordered == 1:` the result `r`
+of `_compose` is protected by `cuddRef(r)` while the memo is released, then `cuddDeref(r)`; when the
+loop goes round again (`mgr.reordered == 1`: CUDD reordered during the attempt) the `r` of the
+abandoned attempt is dropped.  ASSUMED about CUDD, not visible in the source: an operation during
+which reordering happened returns NULL (`cuddZddIte` / `cuddUniqueInterZdd` check `dd->reordered`), so
+`r is not NULL` and `mgr.reordered == 1` do not occur together (the commented-out
+`if mgr.reordered == 1: if r is not NULL: raise AssertionError(r)` says the same).
+`_c_compose`: `cuddDeref(r)` … `return wrap(u.bdd, r)`: only when `wrap` raises (`MemoryError`; `r`
+was checked non-NULL). -/
+def reviewedPlainDrops : List (Backend × String × String) :=
+  [(.cuddZdd, "_compose_root", ""), (.cuddZdd, "_c_compose", "wrap#0")]
+
 def reviewedDeadAssertions : List (Backend × String) :=
   [(.cuddZdd, "_c_compose"), (.cuddZdd, "_compose_root"), (.cuddZdd, "_compose")]
 
